@@ -17,6 +17,7 @@ wrap-around arithmetic) - the oracle says which side is wrong - and a failing fu
 by statement deletion on the abstract program.
 """
 import hashlib
+import os
 
 M64 = 1 << 64
 
@@ -138,6 +139,9 @@ def evars(e):
     return s
 
 
+# Expressions available on some paths only are re-used as well (since fix dc971d7 of the cse join defect; before it
+# the generator had to avoid them).  C02_FLOW_RESTRICTED=1 brings the must-available-or-killed discipline back.
+UNRESTRICTED = not os.environ.get("C02_FLOW_RESTRICTED")
 CVAL = {}        # locals whose value is a known constant at the point being generated (constant propagation)
 
 
@@ -210,11 +214,11 @@ def keys(e):
 class G:
     """Generates one function while tracking, for every expression text seen so far, whether it is
     available on ALL paths reaching the current point (`must`), on SOME path (`may`) or on none.
-    An expression is re-used only when it is must-available (a common subexpression the optimiser may
-    share) or not available on any path (it was killed by an assignment to one of its operands: the
-    optimiser has to recompute it).  Expressions available on some paths only are never used again:
-    on the unchanged tree cse already mis-handles those (recorded separately, corpus/C02/hand-cse-*),
-    and the family must stay decidable.  Constants are locals k0..k100 assigned once at the top, so a
+    Re-use prefers expressions that are must-available (a common subexpression the optimiser may share)
+    or killed by an assignment to one of their operands (the optimiser has to recompute them); expressions
+    available on some paths only (computed in one branch, or only inside a loop body, or killed on one
+    path) are re-used too - the shape of the cse join defect repaired by dc971d7, corpus/C02/hand-cse-*.
+    With C02_FLOW_RESTRICTED=1 those are avoided (the discipline needed before the repair).  Constants are locals k0..k100 assigned once at the top, so a
     constant is an operand like any other and no call node is free of variables."""
 
     def __init__(self, rng):
@@ -242,6 +246,11 @@ class G:
         self.may -= dead
 
     def usable(self, e):
+        if UNRESTRICTED:
+            return True
+        return self.usable0(e)
+
+    def usable0(self, e):
         """no call node of e is available on some paths only; inside a loop every call node mentions a
         local the body updates at its end (so nothing computed in the body survives the back edge)"""
         for x in subexprs(e):
